@@ -105,6 +105,16 @@ def generate(rng, tier):
                     ast = [['tee', join, [nb, [sl]] if pos == 0 else [[sl], nb]]]
                     trace = muxgen.gen_trace(rng, muxgen.INT, max_items=rng.choice([None, 6]))
                     cases.append({'ast': ast, 'trace': trace, 'kind': rng.choice(['keys', 'keys', 'groupby']), 'km': g.int_key()})
+    # (a'') two key levels: group_by(k1, group_by(k2, P)) on one source - consecutive items that belong to different outer
+    #       groups but have equal inner keys, outer groups alive at the same time, inner groups of different outer groups
+    for _ in range({'quick': 14, 'thorough': 160, 'search': 2}[tier]):
+        ast, _t = g.pipe(muxgen.INT, 0, rng.randint(1, 3))
+        if muxgen.has_take(ast):
+            ast = strip_fallible(ast)
+        trace = muxgen.gen_trace(rng, muxgen.INT, nkeys=1, max_items=rng.choice([None, 8]))
+        k1, k2 = rng.choice([(['mod', 2], ['floordiv', 2]), (['mod', 2], ['const', enc(7)]), (['mod', 3], ['mod', 2]),
+                             (['isodd'], ['gt', enc(3)]), (['floordiv', 3], ['mod', 3])])
+        cases.append({'ast': ast, 'trace': trace, 'kind': 'groupby', 'km': k1, 'km2': k2})
     # (b) items that are == but not identical (3 / 3.0, 0 / False / 0.0 / -0.0, 1 / True): which OBJECT a group's result
     #     is must not depend on the execution mode; every operator that selects or keeps items
     keepers = [['last'], ['first'], ['duc', None], ['take', 2], ['max', None, 1], ['min', None, 1], ['max', None, 0], ['min', None, 0],
@@ -186,20 +196,28 @@ def safe_for_none(ast):
     return True
 
 
+def gb_ast(case, inner):
+    """the pipeline inside group_by(km) - or, with km2, inside group_by(km, group_by(km2, .)): two key levels"""
+    if case.get('km2'):
+        return [['group', case['km'], [['group', case['km2'], inner]]]]
+    return [['group', case['km'], inner]]
+
+
 def run_impl(case):
     ast, trace = case['ast'], case['trace']
     if case['kind'] == 'groupby':
         # one key whose items are grouped by km; the pipeline runs inside group_by
         items = [e[2] for e in trace if e[0] == 'n']
         t = [['c', [0]]] + [['n', [0], x] for x in items] + [['d', [0]]]
-        obs = muxlib.run_mux([['group', case['km'], ast + [['tap', 1]]]], t, taps=True)
+        obs = muxlib.run_mux(gb_ast(case, ast + [['tap', 1]]), t, taps=True)
         # the same through the public entry point: plain source -> with_memory_store(group_by(...)) -> plain items
         try:
-            obs['entry'] = muxlib.run_mux_plain_source([['group', case['km'], ast]], items)['steps']
+            obs['entry'] = muxlib.run_mux_plain_source(gb_ast(case, ast), items)['steps']
         except Exception as e:
             obs['entry'] = {'raised': type(e).__name__}
         from harness.pyval import py_fn, dec
-        km = py_fn(case['km'])
+        km1, km2 = py_fn(case['km']), (py_fn(case['km2']) if case.get('km2') else None)
+        km = (lambda v: (km1(v), km2(v))) if km2 else km1
         groups, order = {}, []
         for x in items:
             g = enc(km(dec(x)))
@@ -381,7 +399,7 @@ def coq_term(case, obs):
     if case['kind'] == 'groupby':
         if 'raised' in obs:
             return 'MCRaised'
-        main = muxlib.coq_muxcase([['group', case['km'], case['ast']]], obs['trace'], obs)
+        main = muxlib.coq_muxcase(gb_ast(case, case['ast']), obs['trace'], obs)
     else:
         main = muxlib.coq_muxcase(case['ast'], case['trace'], obs)
     if main in ('MCRaised', 'MCSkip'):
@@ -408,7 +426,7 @@ def coq_model_expr(case):
     if case['kind'] == 'groupby':
         items = [e[2] for e in case['trace'] if e[0] == 'n']
         t = [['c', [0]]] + [['n', [0], x] for x in items] + [['d', [0]]]
-        return 'mux_model %s %s' % (muxlib.coq_pipe([['group', case['km'], case['ast']]]), muxlib.coq_trace(t))
+        return 'mux_model %s %s' % (muxlib.coq_pipe(gb_ast(case, case['ast'])), muxlib.coq_trace(t))
     return 'mux_model %s %s' % (muxlib.coq_pipe(case['ast']), muxlib.coq_trace(case['trace']))
 
 
